@@ -427,6 +427,11 @@ impl CommandBuilder<'_> {
         #[cfg(feature = "verif-hooks")]
         let mut command = verif_hooks::HookedCommand(command);
 
+        if self.options.replace.is_some() && self.extra_args.is_empty() {
+            // Replace mode runs the command once per input line: no line, no run.
+            return Ok(CommandResult::Success);
+        }
+
         if let Some(replace_str) = &self.options.replace {
             // Replace all occurrences in initial args with the extra arg,
             // Thanks to `MaxArgsCommandSizeLimiter`, we only process a single extra arg here.
